@@ -475,10 +475,10 @@ func ResolveExternalLocation(
 	var resolvedBatch arrow.RecordBatch
 	for reader.Next() {
 		rec := reader.RecordBatch()
-		// Skip log/error batches
+		// Skip log/error batches (zero-row batches carrying a log level)
 		recMeta := batchMetadata(rec)
 		_, isLog := metaGet(recMeta, MetaLogLevel)
-		if isLog {
+		if isLog && rec.NumRows() == 0 {
 			continue
 		}
 		// Check for redirect loops
@@ -582,10 +582,12 @@ func redactExternalURL(rawURL string) string {
 	return u.String()
 }
 
-// batchMetadata extracts custom metadata from a record batch.
+// batchMetadata extracts the custom metadata of a record batch (the IPC
+// message's custom_metadata, where log and pointer markers live). Schema-level
+// metadata is a different thing and is not consulted.
 func batchMetadata(rec arrow.RecordBatch) arrow.Metadata {
-	if rec.Schema().HasMetadata() {
-		return rec.Schema().Metadata()
+	if withMeta, ok := rec.(arrow.RecordBatchWithMetadata); ok {
+		return withMeta.Metadata()
 	}
 	return arrow.Metadata{}
 }
